@@ -12,6 +12,8 @@ mod prod;
 mod kahan;
 #[cfg(feature = "serde")]
 mod serde_ops;
+#[cfg(feature = "serde")]
+mod poswire;
 
 use serde_json::{json, Value};
 use std::io::{BufRead, BufWriter, Write};
